@@ -47,6 +47,12 @@ def tx_dump(case, ctx):
             f[grp]["bins"].create_dataset("weight", data=np.array([float("nan") if e < 0 else float(2 ** e) for e in case["wexp"]]))
             if grp != "/":
                 f["bins"].create_dataset("weight", data=np.array([4.0 for _ in case["wexp"]]))      # the decoy's weights
+    if case.get("legacy_attrs") and case["mode"] == "symm":
+        # a file as older versions of the format wrote it: no storage-mode attribute (read as symmetric-upper), format-version 2
+        fp, grp = gen.split_uri(path)
+        with h5py.File(fp, "r+") as f:
+            del f[grp].attrs["storage-mode"]
+            f[grp].attrs["format-version"] = 2
     o = case["o"]
     args = ["dump", path, "--float-format", ".17g", "-k", str(case["chunk"])]
     if o["hasr"]:
@@ -166,7 +172,8 @@ def tx_roundtrip(case, ctx):
     d = ctx.subdir()
     table, mode = case["table"], case["mode"]
     # chromosome names: the usual a, b, c or names whose natural / lexical order is not the order of the table
-    names = ["c2", "c10", "scaffold_7", "c1", "chrUn_x"] if case.get("names") == "unsorted" else gen.CHROMNAMES
+    names = ["c2", "c10", "scaffold_7", "c1", "chrUn_x"] if case.get("names") == "unsorted" else \
+        ["2", "10", "1", "3", "7"] if case.get("names") == "numeric" else gen.CHROMNAMES      # purely numeric names (Ensembl style)
     src = gen.place(os.path.join(d, "src.cool"), table, case["px"], mode, at=case.get("at"), names=names)
     fmt = case["fmt"]
     dump_args = ["dump", src, "-k", str(case["chunk"])] + (["--join"] if fmt == "bg2" else [])
